@@ -124,13 +124,23 @@ impl FileReader for LSPFileReader {
         // if there is an parent_file, find its path and use that as the parent
         let fulluri = match parent_file {
             Some(uuid) => {
-                let doc = self.file_uris.get(&uuid).unwrap();
-                let uri = lsp_types::Url::parse(&doc.uri).unwrap();
-                let fileuri = uri.join(path).unwrap();
+                let doc = self
+                    .file_uris
+                    .get(&uuid)
+                    .ok_or(FileReaderError::InternalFileNotFound)?;
+                // The name is whatever stands between the quotes of the
+                // directive, and the document may be one that has no
+                // location to resolve it against (an unsaved buffer): a
+                // name that cannot be resolved is an error on the directive.
+                let uri =
+                    lsp_types::Url::parse(&doc.uri).map_err(|_| FileReaderError::InvalidPath)?;
+                let fileuri = uri.join(path).map_err(|_| FileReaderError::InvalidPath)?;
                 fileuri.to_string()
             }
             // otherwise, this is the full path to the file, denoted by its uri
-            None => lsp_types::Url::parse(path).unwrap().to_string(),
+            None => lsp_types::Url::parse(path)
+                .map_err(|_| FileReaderError::InvalidPath)?
+                .to_string(),
         };
 
         // find file in values of hashmap
